@@ -35,6 +35,7 @@ const struct option longOpts[] = {
 */
 const char shortOpts[] = "edvVhni:o:k:m:";
 char fout[128];
+static bool fout_fits;
 /*################################
   辅助函数
 ################################*/
@@ -119,7 +120,7 @@ bool parseOpts(char c, vpak_t *res)
         break;
     case 'i':
         res->fp = fopen(optarg, "rb");
-        sprintf(fout, "%s.wenc", optarg);
+        fout_fits = snprintf(fout, sizeof(fout), "%s.wenc", optarg) < (int)sizeof(fout);
         try
         {
             auto fileSize = std::filesystem::file_size(optarg);
@@ -163,7 +164,13 @@ bool parseOpts(char c, vpak_t *res)
     case 1:
         if (res->ctype == -1)
         {
-            res->ctype = atoi(optarg);
+            tnum = atoi(optarg);
+            if (!check_ctype(tnum))
+            {
+                strlog("Error :", "Wrong ctype");
+                return false;
+            }
+            res->ctype = tnum;
             printCryptMode(res->ctype);
         }
         else
@@ -175,7 +182,13 @@ bool parseOpts(char c, vpak_t *res)
     case 2:
         if (res->htype == -1)
         {
-            res->htype = atoi(optarg);
+            tnum = atoi(optarg);
+            if (!check_htype(tnum))
+            {
+                strlog("Error :", "Wrong htype");
+                return false;
+            }
+            res->htype = tnum;
             printHashMode(res->htype);
         }
         else
@@ -223,6 +236,7 @@ u8_t *get_v_opt(int argc, char *argv[])
 {
     srand((unsigned)time(NULL));
     memset(fout, 0, sizeof(fout));
+    fout_fits = true;
     int option_index = 0;
     optind = 1;
     vpak_t *res = new vpak_t;
@@ -288,10 +302,43 @@ u8_t *get_v_opt(int argc, char *argv[])
         if (res->out == NULL)
         {
             strlog("Note :", "Using default output file name");
+            if (!fout_fits)
+            {
+                strlog("Error :", "Input path too long for the default output name, use -o");
+                delete res;
+                return NULL;
+            }
             res->out = fopen(fout, "wb+");
+            if (res->out == NULL)
+            {
+                strlog("Error :", "Could not open file " + std::string(fout));
+                delete res;
+                return NULL;
+            }
         }
         getRandomBuffer(res->r_buf);
         printkey(res->key);
+    }
+    else if (res->mode == 'd' || res->mode == 'v')
+    {
+        if (res->fp == NULL)
+        {
+            strlog("Error :", "No file specified");
+            delete res;
+            return NULL;
+        }
+        if (res->key == NULL)
+        {
+            strlog("Error :", "No key specified");
+            delete res;
+            return NULL;
+        }
+        if (res->mode == 'd' && res->out == NULL)
+        {
+            strlog("Error :", "No output file specified");
+            delete res;
+            return NULL;
+        }
     }
     return res->buf;
 }
